@@ -252,11 +252,13 @@ static inline void vp_preempt_point(void) {
   vp_pre_count++;
 }
 void vp_sync_point(void) { vp_preempt_point(); }
+int vp_yield_to_pending(void) { if (!vp_pre_enabled || vp_pre_ran || vp_pre_inside) return 0; vp_run_pending_unit(); return 1; }
 #else
 #define vp_preempt_point() ((void)0) /* threaded (Tier K) and plain sequential modules: no hook at all */
 int vp_pre_enabled, vp_pre_ran, vp_pre_inside;
 void vp_run_pending_unit(void) {}
 void vp_sync_point(void) {}
+int vp_yield_to_pending(void) { return 0; }
 #endif
 
 uint64_t vp_atomic_load(uint64_t a, int sz, int order) {
